@@ -176,9 +176,15 @@ Definition apply_op (o : opn) (args : list val) (ia : list (list nat)) : val :=
   | OPos, [VT x] => VT x
   | OKron, [VT x; VT y] => VT (kron_tt x y)
   | OKron, [VT x; VNone] => VT x
-  | ORank1, _ :: _ =>      (* rank1TT(list of vectors): cores e[None, ..., None] *)
-      match fold_right (fun v acc => match v, acc with VD d, Some l => Some ((nth 0 (dshape d) 0%nat, fun i => dget d [i]) :: l) | _, _ => None end) (Some []) args with
-      | Some vs => VT (rank1 vs)
+  | OKron, [VNone; VT x] => VT x                          (* None ** x, through __rpow__ *)
+  | ORank1, _ :: _ =>      (* rank1TT(list of vectors | list of matrices): cores e[None, ..., None]; a mixed list is rejected by the constructor *)
+      match fold_right (fun v acc => match v, acc with VD d, Some l => Some (d :: l) | _, _ => None end) (Some []) args with
+      | Some ds =>
+          if forallb (fun d => Nat.eqb (length (dshape d)) 1) ds
+          then VT (rank1 (map (fun d => (nth 0 (dshape d) 0%nat, fun i => dget d [i])) ds))
+          else if forallb (fun d => Nat.eqb (length (dshape d)) 2) ds
+          then VM (map (fun d => mk4 1 (nth 0 (dshape d) 0%nat) (nth 1 (dshape d) 0%nat) 1 (fun _ i j _ => dget d [i; j])) ds)
+          else VErr EArgs
       | None => VErr EModel
       end
   | OMeshgrid, _ :: _ =>   (* meshgrid(vectors)[i]: ones cores everywhere but the vector on axis i *)
@@ -268,10 +274,18 @@ Definition dapply_op (o : opn) (args : list val) (ia : list (list nat)) : val :=
   | OPos, [VD a] => VD a
   | OKron, [VD a; VD b] => VD (douter a b)
   | OKron, [VD a; VNone] => VD a
+  | OKron, [VNone; VD a] => VD a
   | ORank1, _ :: _ =>
       match fold_right (fun v acc => match v, acc with VD d, Some l => Some (d :: l) | _, _ => None end) (Some []) args with
-      | Some ds => VD (mkD (map (fun d => nth 0 (dshape d) 0%nat) ds)
-                          (fun idx => fold_right rmul rI (map (fun p => dget (fst p) [snd p]) (combine ds idx))))
+      | Some ds =>
+          if forallb (fun d => Nat.eqb (length (dshape d)) 1) ds
+          then VD (mkD (map (fun d => nth 0 (dshape d) 0%nat) ds)
+                       (fun idx => fold_right rmul rI (map (fun p => dget (fst p) [snd p]) (combine ds idx))))
+          else if forallb (fun d => Nat.eqb (length (dshape d)) 2) ds
+          then VD (mkD (map (fun d => nth 0 (dshape d) 0%nat) ds ++ map (fun d => nth 1 (dshape d) 0%nat) ds)
+                       (fun idx => fold_right rmul rI (map (fun p => dget (fst p) [fst (snd p); snd (snd p)])
+                                                            (combine ds (combine (firstn (length ds) idx) (skipn (length ds) idx))))))
+          else VErr EArgs
       | None => VErr EModel
       end
   | OMeshgrid, _ :: _ =>
